@@ -37,6 +37,13 @@ class Param:
         self.i = i
 
 
+class CParam:
+    """parameter of an inlined closure body (see common.closure_paths)"""
+
+    def __init__(self, i):
+        self.i = i
+
+
 class Field:
     def __init__(self, base, name, variant=ANY):
         self.base = base
@@ -156,6 +163,8 @@ def match(e, p, b=None):
         return True
     if isinstance(p, Param):
         return e == ("param", p.i)
+    if isinstance(p, CParam):
+        return e[0] == "cparam" and e[1] == p.i
     if isinstance(p, Field):
         if e[0] != "field":
             return False
